@@ -188,28 +188,84 @@ func fmtNum(r *hx.Rng) string {
 
 func genFile(r *hx.Rng, run *hx.Run) string {
 	var b strings.Builder
+	// ---- text layer: separators, line terminators, blanks and comments anywhere ----
 	sep := func() string {
-		switch r.Intn(10) {
+		switch r.Intn(12) {
 		case 0:
 			return "  "
 		case 1:
 			return "\t"
+		case 2:
+			return " \t "
 		}
 		return " "
 	}
-	eol := "\n"
-	if r.Chance(1, 10) {
-		eol = "\r\n"
+	eolMode := r.Intn(10) // 0: CRLF throughout, 1: LF and CRLF mixed line by line, otherwise LF
+	switch eolMode {
+	case 0:
+		run.Count("file:eol-crlf")
+	case 1:
+		run.Count("file:eol-mixed")
 	}
-	end := func() {
-		if r.Chance(1, 12) {
-			b.WriteString(" ")
+	eolf := func() string {
+		if eolMode == 0 || (eolMode == 1 && r.Bool()) {
+			return "\r\n"
 		}
-		b.WriteString(eol)
+		return "\n"
+	}
+	inFill := false
+	var fill func()
+	end := func() {
+		switch r.Intn(16) {
+		case 0:
+			b.WriteString(" ")
+		case 1:
+			b.WriteString("\t")
+		case 2:
+			b.WriteString(" \t  ")
+		}
+		b.WriteString(eolf())
+		if !inFill && r.Chance(1, 9) {
+			fill()
+		}
+	}
+	lead := func() { // leading blanks before the keyword
+		if r.Chance(1, 14) {
+			b.WriteString(hx.Pick(r, []string{" ", "\t", "   "}))
+		}
+	}
+	fill = func() { // lines without meaning, anywhere between two statements
+		inFill = true
+		defer func() { inFill = false }()
+		switch r.Intn(5) {
+		case 0:
+			b.WriteString("#")
+		case 1:
+			b.WriteString("# v 1 2 3 f 1 2 3")
+		case 2:
+			b.WriteString(hx.Pick(r, []string{"", " ", "\t", "  \t"})) // blank line
+			b.WriteString(eolf())
+			return
+		case 3:
+			b.WriteString("#comment without space")
+		case 4:
+			if longLines && r.Chance(1, 2) {
+				// a legal line that does not fit bufio.Scanner's default 64 KiB token
+				b.WriteString("# " + strings.Repeat("x", 65534+r.Range(0, 4000)))
+				run.Count("file:line-over-64KiB")
+			} else {
+				// 65535 bytes before the LF: the longest line the default scanner takes (no trailing blanks, no CR)
+				b.WriteString("# " + strings.Repeat("y", 65533) + "\n")
+				run.Count("file:line-of-65535-bytes")
+				return
+			}
+		}
+		end()
 	}
 	nv, nt, nn := 0, 0, 0
 	emitV := func(k int) {
 		for i := 0; i < k; i++ {
+			lead()
 			b.WriteString("v" + sep() + fmtNum(r) + sep() + fmtNum(r) + sep() + fmtNum(r))
 			if r.Chance(1, 10) {
 				b.WriteString(sep() + "1.0") // w coordinate: ignored
@@ -220,6 +276,7 @@ func genFile(r *hx.Rng, run *hx.Run) string {
 	}
 	emitT := func(k int) {
 		for i := 0; i < k; i++ {
+			lead()
 			b.WriteString("vt" + sep() + fmtNum(r) + sep() + fmtNum(r))
 			if r.Chance(1, 6) {
 				b.WriteString(sep() + "0") // third texture coordinate: ignored
@@ -230,6 +287,7 @@ func genFile(r *hx.Rng, run *hx.Run) string {
 	}
 	emitN := func(k int) {
 		for i := 0; i < k; i++ {
+			lead()
 			b.WriteString("vn" + sep() + fmtNum(r) + sep() + fmtNum(r) + sep() + fmtNum(r))
 			end()
 			nn++
@@ -238,25 +296,36 @@ func genFile(r *hx.Rng, run *hx.Run) string {
 	misc := func() {
 		switch r.Intn(12) {
 		case 0:
-			b.WriteString("# a comment" + eol)
+			b.WriteString("# a comment")
+			end()
 		case 1:
-			b.WriteString("o thing" + eol)
+			b.WriteString("o thing")
+			end()
 		case 2:
-			b.WriteString("s off" + eol)
+			b.WriteString("s off")
+			end()
 		case 3:
-			b.WriteString(eol)
+			b.WriteString(eolf())
 		case 4:
 			b.WriteString("mtllib" + sep() + hx.Pick(r, []string{"a.mtl", "b.mtl c.mtl"}))
 			end()
 		}
 	}
 	usemtl := func() {
+		lead()
 		b.WriteString("usemtl" + sep() + hx.Pick(r, matNames))
 		end()
 		run.Count("file:usemtl")
 	}
+	if r.Chance(1, 16) {
+		// a byte-order mark is not OBJ; it glues to the first keyword, which both the reader and the tokenizer then
+		// see as an unknown statement (harmless before a comment, drops the first vertex before a v line)
+		b.WriteString("\ufeff")
+		run.Count("file:utf8-bom")
+	}
 	if r.Chance(1, 4) {
-		b.WriteString("# Created by a generator" + eol)
+		b.WriteString("# Created by a generator")
+		end()
 	}
 	emitV(r.Range(3, 7))
 	if r.Chance(2, 3) {
@@ -387,7 +456,12 @@ func genFile(r *hx.Rng, run *hx.Run) string {
 			if mixed {
 				form = pickForm()
 			}
+			lead()
 			b.WriteString("f" + sep() + cornerTok(form) + sep() + cornerTok(form) + sep() + cornerTok(form))
+			if longLines && r.Chance(1, 40) {
+				b.WriteString(strings.Repeat(" ", 66000)) // trailing blanks push the line over 64 KiB
+				run.Count("file:line-over-64KiB")
+			}
 			if polygons && r.Chance(1, 2) {
 				for k := r.Range(1, 2); k > 0; k-- {
 					b.WriteString(sep() + cornerTok(form))
@@ -406,15 +480,60 @@ func genFile(r *hx.Rng, run *hx.Run) string {
 		}
 	}
 	if invalid && r.Chance(1, 4) {
-		b.WriteString(hx.Pick(r, []string{"vt 0.5", "v 1 2", "vn 0 1", "v"}) + eol) // too few numbers: index panic
+		b.WriteString(hx.Pick(r, []string{"vt 0.5", "v 1 2", "vn 0 1", "v"})) // too few numbers: index panic
+		end()
 		run.Count("file:invalid-short-line")
 	}
 	if invalid && r.Chance(1, 3) {
-		b.WriteString("usemtl" + eol) // declared error
+		b.WriteString("usemtl") // declared error
+		end()
 		run.Count("file:invalid-bare-usemtl")
 	}
+	// ---- the last statement: every kind, then its terminator: LF / CRLF / a lone CR / none at all ----
+	inFill = true // nothing after the last statement
+	last := r.Intn(9)
+	switch last {
+	case 0:
+		emitV(1)
+	case 1:
+		if r.Bool() {
+			emitT(1)
+		} else {
+			emitN(1)
+		}
+	case 2:
+		usemtl()
+	case 3:
+		b.WriteString("g" + sep() + hx.Pick(r, groupNames))
+		end()
+	case 4:
+		b.WriteString("# the end")
+		end()
+	case 5, 6:
+		if nv >= 1 {
+			form := pickForm()
+			invalid = false
+			b.WriteString("f" + sep() + cornerTok(form) + sep() + cornerTok(form) + sep() + cornerTok(form))
+			end()
+		}
+	} // 7, 8: whatever the last section ended with (mostly an f line)
+	text := b.String()
+	switch r.Intn(4) {
+	case 0: // no terminator after the last statement
+		if strings.HasSuffix(text, "\r\n") {
+			text = strings.TrimSuffix(text, "\r\n")
+		} else {
+			text = strings.TrimSuffix(text, "\n")
+		}
+		run.Count("file:last-line-unterminated")
+	case 1:
+		if strings.HasSuffix(text, "\r\n") {
+			text = strings.TrimSuffix(text, "\n") // CR only
+			run.Count("file:last-line-cr-only")
+		}
+	}
 	run.Count(fmt.Sprintf("file:sections=%d", sections))
-	return b.String()
+	return text
 }
 
 func maxi(a, b int) int {
@@ -452,6 +571,20 @@ func fixedWrites() []writeDesc {
 			Mats: []matDesc{{1, sp("red")}, {0, sp("green")}, {1, sp("red")}, {1, nil}}}}},
 	}
 }
+// every kind of last statement with every way of ending the text
+func fixedTails() []string {
+	base := "v 0 0 0\nv 1 0 0\nv 0 1 0\nv 1 1 0\nvn 0 0 1\nvt 0 0\ng a\nusemtl m\nf 1 2 3\nf 1//1 2//1 4//1\n"
+	var out []string
+	for _, last := range []string{"f 2 3 4", "f 2/1/1 3/1/1 4/1/1", "usemtl n\nf 2 3 4", "g b\nf 2 3 4", "v 2 2 2", "vt 1 1", "vn 0 1 0",
+		"usemtl n", "g b", "# end", "o x", "mtllib a.mtl", "f 2 3 4 ", "f 2 3 4\t"} {
+		for _, term := range []string{"", "\n", "\r\n", "\r"} {
+			out = append(out, base+last+term)
+			out = append(out, strings.ReplaceAll(base, "\n", "\r\n")+strings.ReplaceAll(last, "\n", "\r\n")+term)
+		}
+	}
+	return append(out, "", "\n", "\r\n", "f", base+"f 2 3 4\n\n", base+"f 2 3 4 \n \n\t", base+"f 2 3 4\r\n\r\n", "v 0 0 0\nv 1 0 0\nv 0 1 0\nf 1 2 3")
+}
+
 func fixedFiles() []string {
 	v := "v 0 0 0\nv 1 0 0\nv 0 1 0\nv 1 1 0\nvn 0 0 1\nvn 0 1 0\nvt 0 0\nvt 1 1\n"
 	return []string{
